@@ -162,7 +162,7 @@ def c04(E, blt, opts, r):
             out.append(V_('c04-quota', "quota %s at %r, prescribed %s (ballots/votes %s, seats %d)" % (a['quota'], a['msg'], want, base, s), **sig))
             break
     # nobody holding a quota is excluded
-    prev = None
+    prev = None; moved_round = None
     for a in acts:
         if a['tag'] == 'defeat' and prev is not None:
             for cid, c in a['cstate'].items():
@@ -176,6 +176,20 @@ def c04(E, blt, opts, r):
                     if holds:
                         out.append(V_('c04-excluded-with-quota', "candidate %d excluded at %r while holding %s >= quota %s" %
                                       (cid, a['msg'], pc['vote'], prev['quota']), **sig))
+        # nobody is left undecided while holding a quota: an exclusion or surplus transfer (the step after the
+        # round's election step) never starts from a state in which a hopeful candidate holds the quota
+        # (Minneapolis defeats certain losers before the round's election step by statute: not checked there)
+        if (rule in GREGORY and rule != 'mpls' and prev is not None and moved_round != a['round'] and prev['round'] == a['round']
+                and not a['msg'].startswith('Defeat undeclared')
+                and (a['tag'] == 'defeat' or (a['tag'] == 'transfer' and a['msg'].startswith('Surplus')))):
+            for cid, pc in prev['cstate'].items():
+                if pc['state'] != 'hopeful': continue
+                if rule == 'mpls' and cid in E.electionProfile.undeclared: continue
+                if has_quota(pc['vote'], prev['quota']) and fv(E, prev['quota']) > 0:
+                    out.append(V_('c04-undecided-with-quota', "candidate %d still hopeful with %s >= quota %s when the round went on to %r" %
+                                  (cid, pc['vote'], prev['quota'], a['msg']), **sig))
+                    break
+        if a['tag'] in ('transfer', 'defeat') and not a['msg'].startswith('Defeat undeclared'): moved_round = a['round']
         prev = a
     return out
 
